@@ -70,7 +70,8 @@ var c16TypedNilNoted bool
 // c16Wire is set by the on-the-wire half (added separately).
 var c16Wire func(env *fw.Env)
 
-var c16ByteSizes = []int{-1, 0, 1, 2, 3, 4, 5, 8, 16}
+// (the last ones are invalid sizes that turn into a valid width when truncated to 32 or 8 bits)
+var c16ByteSizes = []int{-1, 0, 1, 2, 3, 4, 5, 8, 16, 1<<32 + 1, 1<<32 + 2, 1<<32 + 4, 1<<32 + 8, -(1 << 32) + 4, 1<<33 + 8, 256 + 2, 65536 + 4}
 
 type c16Call struct {
 	Ctor     string `json:"ctor"`
